@@ -1,0 +1,112 @@
+//go:build verif
+
+package cedar
+
+// Contracts for the govc verifier (/verif). Comment-only file: it contains no
+// executable code and is compiled only with the build tag `verif`.
+
+// ------------------------------------------------------------- authorize.go
+//
+// The policy collection is whatever the iterator yields: a finite map from
+// ids to policies (ids distinct: assumption for user-defined iterators).
+//@ spec func iter_PolicyIterator_All(ps PolicyIterator, id PolicyID, p *Policy) bool
+//@ spec func iter_PolicyIterator_All_val(ps PolicyIterator, id PolicyID) *Policy
+//@ spec func inPS(ps PolicyIterator, id PolicyID) bool = iter_PolicyIterator_All(ps, id, iter_PolicyIterator_All_val(ps, id))
+//@ spec func pol(ps PolicyIterator, id PolicyID) *Policy = iter_PolicyIterator_All_val(ps, id)
+
+// The environment Authorize evaluates in (a nil entity getter means no entities).
+//@ spec func authEnv(entities types.EntityGetter, req Request) eval.Env = mkstruct(eval.Env, (entities == nil ? types.EntityGetter(types.EntityMap(nil)) : entities), req.Principal, req.Action, req.Resource, req.Context)
+
+// A policy is satisfied iff its compiled condition evaluates to true; a policy
+// whose evaluation fails (error or non-boolean) is erroring, never satisfied.
+//@ spec func polSat(p *Policy, env eval.Env) bool = okBool(p.eval.eval, env) && vBool(p.eval.eval, env)
+//@ spec func polErr(p *Policy, env eval.Env) bool = !okBool(p.eval.eval, env)
+//@ spec func isForbid(p *Policy) bool = !p.ast.Effect
+//@ spec func anyForbid(ps PolicyIterator, env eval.Env) bool = exists id PolicyID :: inPS(ps, id) && isForbid(pol(ps, id)) && polSat(pol(ps, id), env)
+//@ spec func anyPermit(ps PolicyIterator, env eval.Env) bool = exists id PolicyID :: inPS(ps, id) && !isForbid(pol(ps, id)) && polSat(pol(ps, id), env)
+//@ spec func samePos(a types.Position, p *Policy) bool = a.Filename == p.ast.Position.Filename && a.Offset == p.ast.Position.Offset && a.Line == p.ast.Position.Line && a.Column == p.ast.Position.Column
+//@ spec func hasReason(rs []types.DiagnosticReason, id PolicyID) bool = exists k int :: 0 <= k && k < len(rs) && rs[k].PolicyID == id
+//@ spec func hasError(es []types.DiagnosticError, id PolicyID) bool = exists k int :: 0 <= k && k < len(es) && es[k].PolicyID == id
+
+//@ func Authorize
+//@   props C02
+//@   results d, diag
+//@   requires forall id PolicyID :: inPS(policies, id) ==> pol(policies, id) != nil && pol(policies, id).ast != nil
+//@   ensures decision: d == (anyPermit(policies, authEnv(entities, req)) && !anyForbid(policies, authEnv(entities, req)))
+//@   ensures reasons: forall id PolicyID :: hasReason(diag.Reasons, id) == (inPS(policies, id) && polSat(pol(policies, id), authEnv(entities, req)) && (anyForbid(policies, authEnv(entities, req)) ? isForbid(pol(policies, id)) : !isForbid(pol(policies, id))))
+//@   ensures reasonpos: forall k int :: (0 <= k && k < len(diag.Reasons)) ==> samePos(diag.Reasons[k].Position, pol(policies, diag.Reasons[k].PolicyID))
+//@   ensures errors: forall id PolicyID :: hasError(diag.Errors, id) == (inPS(policies, id) && polErr(pol(policies, id), authEnv(entities, req)))
+//@   ensures errorpos: forall k int :: (0 <= k && k < len(diag.Errors)) ==> samePos(diag.Errors[k].Position, pol(policies, diag.Errors[k].PolicyID))
+//@   loop 1
+//@     invariant env == authEnv(entities, req)
+//@     invariant forall id PolicyID :: hasReason(forbids, id) == ($done[id] && polSat(pol(policies, id), env) && isForbid(pol(policies, id)))
+//@     invariant forall id PolicyID :: hasReason(permits, id) == ($done[id] && polSat(pol(policies, id), env) && !isForbid(pol(policies, id)))
+//@     invariant forall id PolicyID :: hasError(diag.Errors, id) == ($done[id] && polErr(pol(policies, id), env))
+//@     invariant forall k int :: (0 <= k && k < len(forbids)) ==> samePos(forbids[k].Position, pol(policies, forbids[k].PolicyID))
+//@     invariant forall k int :: (0 <= k && k < len(permits)) ==> samePos(permits[k].Position, pol(policies, permits[k].PolicyID))
+//@     invariant forall k int :: (0 <= k && k < len(diag.Errors)) ==> samePos(diag.Errors[k].Position, pol(policies, diag.Errors[k].PolicyID))
+//@     invariant len(diag.Reasons) == 0
+//@     invariant (len(forbids) > 0) == (exists id PolicyID :: $done[id] && polSat(pol(policies, id), env) && isForbid(pol(policies, id)))
+//@     invariant (len(permits) > 0) == (exists id PolicyID :: $done[id] && polSat(pol(policies, id), env) && !isForbid(pol(policies, id)))
+
+// ------------------------------------------------------------ policy_set.go
+//
+// Abstract view of a PolicySet: the finite map p.policies (id -> *Policy).
+// Every operation is specified on an arbitrary pre-state, so any finite
+// history of operations is covered (refinement, per operation).
+
+//@ func NewPolicySet
+//@   props C20
+//@   results ps
+//@   ensures ps != nil && !isnil(ps.policies) && len(ps.policies) == 0
+//@   ensures forall id PolicyID :: !has(ps.policies, id)
+
+//@ func (PolicySet) Get
+//@   props C20
+//@   results r
+//@   ensures has(p.policies, policyID) ? r == p.policies[policyID] : r == nil
+
+//@ func (PolicySet) Add
+//@   props C20
+//@   modifies p
+//@   results added
+//@   requires !isnil(p.policies)
+//@   ensures added == !has(old(p.policies), policyID)
+//@   ensures has(p.policies, policyID) && p.policies[policyID] == policy
+//@   ensures forall id PolicyID :: id != policyID ==> (has(p.policies, id) == has(old(p.policies), id) && p.policies[id] == old(p.policies)[id])
+//@   ensures len(p.policies) == len(old(p.policies)) + (has(old(p.policies), policyID) ? 0 : 1)
+
+//@ func (PolicySet) Remove
+//@   props C20
+//@   modifies p
+//@   results removed
+//@   ensures removed == has(old(p.policies), policyID)
+//@   ensures !has(p.policies, policyID)
+//@   ensures forall id PolicyID :: id != policyID ==> (has(p.policies, id) == has(old(p.policies), id) && p.policies[id] == old(p.policies)[id])
+//@   ensures len(p.policies) == len(old(p.policies)) - (has(old(p.policies), policyID) ? 1 : 0)
+
+//@ func (PolicySet) Map
+//@   props C20
+//@   results m
+//@   ensures forall id PolicyID :: has(m, id) == has(p.policies, id) && (has(m, id) ==> m[id] == p.policies[id])
+//@   ensures len(m) == len(p.policies)
+
+// The iterators over a policy set / policy map enumerate exactly the map.
+//@ func (PolicySet) All
+//@   props C20 C02
+//@   itercanonical
+//@ func (PolicyMap) All
+//@   props C20 C02
+//@   itercanonical
+//@ axiom iter_policyset: forall p *PolicySet, id PolicyID, q *Policy :: { iter_PolicyIterator_All(PolicyIterator(p), id, q) } iter_PolicyIterator_All(PolicyIterator(p), id, q) == (p != nil && has(p.policies, id) && p.policies[id] == q)
+//@ axiom iter_policyset_val: forall p *PolicySet, id PolicyID :: { iter_PolicyIterator_All_val(PolicyIterator(p), id) } iter_PolicyIterator_All_val(PolicyIterator(p), id) == p.policies[id]
+
+// IsAuthorized is Authorize on the current contents of the set.
+//@ func (PolicySet) IsAuthorized
+//@   props C20 C02
+//@   results d, diag
+//@   requires forall id PolicyID :: has(p.policies, id) ==> p.policies[id] != nil && p.policies[id].ast != nil
+//@   ensures decision: d == (anyPermit(PolicyIterator(p), authEnv(entities, req)) && !anyForbid(PolicyIterator(p), authEnv(entities, req)))
+//@   ensures reasons: forall id PolicyID :: hasReason(diag.Reasons, id) == (inPS(PolicyIterator(p), id) && polSat(pol(PolicyIterator(p), id), authEnv(entities, req)) && (anyForbid(PolicyIterator(p), authEnv(entities, req)) ? isForbid(pol(PolicyIterator(p), id)) : !isForbid(pol(PolicyIterator(p), id))))
+//@   ensures errors: forall id PolicyID :: hasError(diag.Errors, id) == (inPS(PolicyIterator(p), id) && polErr(pol(PolicyIterator(p), id), authEnv(entities, req)))
+//@   ensures view: forall id PolicyID :: inPS(PolicyIterator(p), id) == has(p.policies, id) && pol(PolicyIterator(p), id) == p.policies[id]
